@@ -3,10 +3,13 @@
 //   seteuid,s:<name> | seteuid,i:<n>      seteuid("<name>") / seteuid(<n>)
 //   export,<oid>                          export_uid(<object oid>)
 //   load,<path>                           load_object(<path>)
-//   call,<path> | calla,<path> | tellroom,<path>   call_other(<path>, ..) / call_other(({ <path> }), ..) / tell_room(<path>, ..)
+//   call,<path> | calla,<path> | tellroom,<path> | filter,<path>
+//                                         call_other(<path>, ..) / call_other(({ <path> }), ..) / tell_room(<path>, ..) /
+//                                         filter(({ 1 }), "fn", <path>)
 //   clone,<newoid>,<path>                 clone_object(<path>, <newoid>)
 //   dest,<oid>                            destruct(<object oid>)
 //   reload,<oid>                          reload_object(<object oid>)
+//   later,<op> | hb,<op>                  (top level only) the op runs from a call_out / from the next heart_beat of this object
 //   via,<oid>,<op>                        evaluate((: run_op, <op> :) made by <oid>), then geteuid(that function)
 //   bind,<oid>,load,<path> | bind,<oid>,clone,<newoid>,<path>
 //                                         bind((: find_object, <path>, 1 :) / (: clone_object, <path>, <newoid> :), <oid>): the
@@ -17,7 +20,7 @@
 // Every op prints one result line `r ...`; create() prints `new <oid> <object name> <uid> <euid>`.
 #include "/include/vcommon.h"
 #define REG "/c20/reg"
-#define RESERVED ({ "m", "se", "u1a", "u1b", "u1c", "u2a", "u2b", "u2c", "bba", "bbb", "bbc", "roota", "rootb", "rootc", "odda", "oddb", "oddc" })
+#define RESERVED ({ "m", "se", "u1i", "u1a", "u1b", "u1c", "u2a", "u2b", "u2c", "bba", "bbb", "bbc", "roota", "rootb", "rootc", "odda", "oddb", "oddc" })
 
 string oid;
 mixed bound_fp;     // bind(): the bound efun pointer the next load / clone op of this object has to use
@@ -32,6 +35,7 @@ string canon_err (mixed e) {
   s = e;
   if (strlen (s) && s[strlen (s) - 1] == '\n') s = s[0..strlen (s) - 2];
   if (s[0..13] == "*Bad argument ") return "*Bad_argument";
+  if (s[0..29] == "*master::valid_object() denied") return "*valid_object_denied";    // (the text names the file)
   return replace_string (s, " ", "_");
 }
 
@@ -60,6 +64,18 @@ string run_op (string op) {
   REG->pop_actor ();
   if (this_object ()) REG->snap ();   // after destruct(this_object()) the registry prints the snapshot
   return r;
+}
+
+// driver-started contexts: the op runs from a call_out / from this object's heart_beat (current_object = this object, no caller)
+string pending_hb;
+void sched_co (string op) { call_out ("run_op", 0, op); }
+void sched_hb (string op) { pending_hb = op; set_heart_beat (1); }
+void heart_beat () {
+  string op;
+  op = pending_hb;
+  pending_hb = 0;
+  set_heart_beat (0);
+  if (stringp (op)) run_op (op);
 }
 
 // bind(): run one load / clone op here, creating through the efun pointer somebody bound to this object
@@ -130,7 +146,7 @@ string do_op (string s) {
     if (!o) r = "nobj";
     else e = catch (r = export_uid (o));
     break;
-  case "call": case "calla": case "tellroom":
+  case "call": case "calla": case "tellroom": case "filter":
     // other efuns that reach load_object through find_or_load_object with this object as current_object: call_other on a
     // file name (also inside an array of targets), tell_room on a file name.  Same expectations as `load` (the plugin
     // compares them with the model's load op)
@@ -138,10 +154,12 @@ string do_op (string s) {
     if ((!o || !stringp (o->my_oid ())) && REG->get (bp_oid (w[1]))) { r = "nobj"; break; }
     if (w[0] == "call") e = catch (call_other (w[1], "my_oid"));
     else if (w[0] == "calla") e = catch (call_other (({ w[1] }), "my_oid"));
+    else if (w[0] == "filter") e = catch (filter (({ 1 }), "my_oid", w[1]));   // callback descriptor with a file name
     else e = catch (tell_room (w[1], ""));
     o = find_object (w[1]);
     // "could not find the object" of these efuns = the 0 of load_object; the errors of load_object itself stay errors
-    if (e && canon_err (e) != "*Can't_load_objects_when_no_effective_user." && canon_err (e) != "*policy_error") e = 0;
+    if (e && canon_err (e) != "*Can't_load_objects_when_no_effective_user." && canon_err (e) != "*policy_error" &&
+        canon_err (e) != "*valid_object_denied") e = 0;
     if (!e && o) {
       if (!stringp (o->my_oid ())) o->announce ();
       r = o->my_oid ();
@@ -160,6 +178,7 @@ string do_op (string s) {
   case "clone":
     if (member_array (w[1], RESERVED) != -1 || REG->get (w[1])) { r = "nobj"; break; }   // reserved or taken id
     if (!find_object (w[2]) && REG->get (bp_oid (w[2]))) { r = "nobj"; break; }
+    if (!find_object (w[2]) && w[2] == "/c20/u1/i") { r = "nobj"; break; }      // inheriting blueprints are loaded, not cloned unloaded
     e = catch (o = (bf ? evaluate (bf) : clone_object (w[2], w[1])));
     if (!e && o) r = o->my_oid ();
     break;
@@ -207,8 +226,13 @@ string do_op (string s) {
   case "reload":
     o = REG->get (w[1]);
     // inside a create() script only objects whose own create() runs no script (no re-entrant scripts)
-    if (!o || w[1] == "m" || (REG->depth () > 0 && stringp (REG->script (script_key (o))))) r = "nobj";
-    else { e = catch (reload_object (o)); r = 1; }
+    if (!o || (REG->depth () > 0 && stringp (REG->script (w[1] == "m" ? "/c20/master" : script_key (o))))) r = "nobj";
+    else {
+      if (w[1] == "m") REG->set_reloading (1);
+      e = catch (reload_object (o));
+      REG->set_reloading (0);
+      r = 1;
+    }
     break;
   default:
     r = "badop";
